@@ -56,7 +56,12 @@ def build(case):
     import torch
     ids = {'none': False, 'all': True, 'mixed': 'mixed'}[case['ids']]
     doms = {'finite': False, 'range': True, 'mixed': 'mixed', 'int-values': 'int-values'}[case['doms']]
-    return gen_fgg.build(case['spec'], 'real', torch.float64, explicit_ids=ids, range_domains=doms)
+    return gen_fgg.build(case['spec'], 'real', torch.float64, explicit_ids=ids, range_domains=doms, empty_id=empty_id_case(case))
+
+
+def empty_id_case(case):
+    """every other case with explicit ids names the first node of each rule '' (pure function of the case)"""
+    return case['ids'] != 'none' and len(case['spec']['rules']) % 2 == 0
 
 
 def label_table(h):
@@ -85,6 +90,18 @@ def check_roundtrip(case, ctx):
         g, info = build(case)
     except Exception as e:
         ctx.violation('build-failed', f'{type(e).__name__}: {e}'); return
+    # ids given explicitly are the object's ids and are marked persistent -- whatever their value (seeded change C14-10: '' is falsy)
+    if case['ids'] != 'none':
+        exp_all = case['ids'] == 'all'
+        for ri, rr in enumerate(info['rules']):
+            for j, v in enumerate(rr['nodes']):
+                if exp_all or (ri + j) % 2 == 0:
+                    want = '' if (empty_id_case(case) and j == 0) else f'v{ri}_{j}'
+                    if not ctx.require(v.persist_id and v.id == want, 'explicit-id-not-kept', f'Node(id={want!r}) has id {v.id!r}, persist_id={v.persist_id}'): return
+                    if want == '': ctx.label('empty-node-id')
+            for k, e in enumerate(rr['edges']):
+                if exp_all or (ri + k + 1) % 2 == 0:
+                    if not ctx.require(e.persist_id and e.id == f'e{ri}_{k}', 'explicit-id-not-kept', f'Edge(id=e{ri}_{k}) has id {e.id!r}, persist_id={e.persist_id}'): return
     used = {e['label'] for r in spec['rules'] for e in r['edges']} | {r['lhs'] for r in spec['rules']} | {spec['start']}
     unused = [n for n in list(spec['terminals']) + list(spec['nonterminals']) if n not in used]
     if unused: ctx.label('unused-label')
